@@ -155,7 +155,7 @@ PROPS = {
     },
     "C14": {
         "lean": ["FsnVerif.Props.C14"],
-        "lean_support": ["FsnVerif.Model.Chan", "FsnVerif.Proofs.SkeletonTieCaps", "FsnVerif.Proofs.BridgeTables"],
+        "lean_support": ["FsnVerif.Model.Chan", "FsnVerif.Proofs.SkeletonTieCaps", "FsnVerif.Proofs.BridgeCaps"],
         "stages": [{"name": "conc", "cmd": "conc", "what": "C14"}],
         "rule": CONC_RULE + "; C14: 1-8 Watchers with buffers {0,1,2,4,64,4096,65536,3} on one directory, one sequential history, Add/Remove/WatchList/Close churn on the others: event sequences must be identical; cap(Events) read directly; absorb test per size",
         "assumptions": ["kernel isolation between inotify instances (measured)"],
@@ -200,7 +200,7 @@ PROPS = {
     },
     "C16": {
         "lean": ["FsnVerif.Props.C16"],
-        "lean_support": ["FsnVerif.Proofs.BitsLemmas", "FsnVerif.Proofs.OpStringLemmas", "FsnVerif.Proofs.BridgeTables", "FsnVerif.Model.Bits"],
+        "lean_support": ["FsnVerif.Proofs.BitsLemmas", "FsnVerif.Proofs.OpStringLemmas", "FsnVerif.Proofs.BridgeString", "FsnVerif.Model.Bits"],
         "stages": [{"name": "pure", "cmd": "pure", "what": "C16"}],
         "rule": "Op.String exhaustively over the low 16 bits plus random 32-bit values; Op.Has / Event.Has on a grid of "
                 "low-9-bit pairs plus random pairs; Event.String over a corpus of names (empty, quotes, newlines, "
@@ -258,6 +258,10 @@ def _sub(a, b):
 
 
 def differs(pid, impl, model):
+    if "BARRIER-TIMEOUT" in impl and "BARRIER-TIMEOUT" not in model:
+        # the reader never got to the end of the datagram: what follows it is lost (C01) and the
+        # goroutine is stuck (the termination properties); nothing can be said about names, order, ...
+        return pid == "C01" or pid in HANG_OWNERS
     fi, fm = _fields(impl), _fields(model)
     ei, em = _events(fi), _events(fm)
     ops_i, ops_m = [e[1] for e in ei], [e[1] for e in em]
